@@ -44,8 +44,8 @@ pub fn string_push_str(s: &mut String, t: &str) ensures final(s)@ == old(s)@ + t
 pub struct IntValue(pub String);
 pub struct FloatValue(pub String);
 
-pub proof fn lemma_int_has_no_dot(s: Seq<char>)
-    requires int_grammar(s)
+pub broadcast proof fn lemma_int_has_no_dot(s: Seq<char>)
+    requires #[trigger] int_grammar(s)
     ensures !s.contains('.')
 {
     if s.contains('.') {
@@ -54,12 +54,21 @@ pub proof fn lemma_int_has_no_dot(s: Seq<char>)
         else { let t = s.subrange(1, s.len() as int); if i == 0 { } else { assert(t[i - 1] == s[i]); assert(digit(t[i - 1])); } }
     }
 }
-pub proof fn lemma_float_has_dot(s: Seq<char>)
-    requires float_grammar_no_exponent(s)
+pub broadcast proof fn lemma_float_has_dot(s: Seq<char>)
+    requires #[trigger] float_grammar_no_exponent(s)
     ensures s.contains('.')
 {
     let (a, f) = choose|a: Seq<char>, f: Seq<char>| int_grammar(a) && digits1(f) && s =~= #[trigger] (a + seq!['.'] + f);
     assert(s[a.len() as int] == '.');
+}
+// appending ".0" to an integer part gives IntegerPart FractionalPart
+pub open spec fn dot_zero() -> Seq<char> { seq!['.', '0'] }
+pub broadcast proof fn lemma_append_dot_zero(a: Seq<char>)
+    requires int_grammar(a)
+    ensures float_grammar_no_exponent(#[trigger] (a + dot_zero()))
+{
+    assert(digits1(seq!['0']));
+    assert(a + dot_zero() =~= a + seq!['.'] + seq!['0']);
 }
 '''
 
@@ -76,8 +85,6 @@ UNIT = {
                        ('text.push_str(', 'string_push_str(&mut text, ', "*")],
              clauses=[("requires", "finite", "is_finite(value)"),
                       ("ensures", "FloatValue_grammar", "float_grammar_no_exponent(r.0@)")],
-             hints=[("body_start", None, 'proof { reveal_strlit(".0"); }'),
-                    ("after", "let mut text = f64_to_string(value);", "let ghost t0 = text@; proof { if int_grammar(t0) { lemma_int_has_no_dot(t0); } else { lemma_float_has_dot(t0); } }"),
-                    ("before", "Self(text)", "proof { if !t0.contains('.') { assert(text@ =~= t0 + seq!['.'] + seq!['0']); assert(digits1(seq!['0'])); } }")]),
+             hints=[("body_start", None, 'broadcast use lemma_int_has_no_dot; broadcast use lemma_float_has_dot; broadcast use lemma_append_dot_zero; proof { reveal_strlit(".0"); assert(".0"@ =~= dot_zero()); }')]),
     ],
 }
